@@ -535,3 +535,35 @@ func HarnessC07Programs() {
 		vfAssert(vfSame(out1, out2), "c07.programs.same-result-as-fresh")
 	}
 }
+
+// ---------------------------------------------------------------------------------
+// C10 (program level): a replacement made by a user visitor takes effect in the tree that is then checked and
+// compiled: compiling src with a Patch visitor that renames identifier `from` to `to` must behave exactly like
+// compiling the already substituted source: same verdict, and equal results for all environment values.
+
+type vfRenamer struct{ from, to string }
+
+func (r *vfRenamer) Enter(n *ast.Node) {}
+func (r *vfRenamer) Exit(n *ast.Node) {
+	if id, ok := (*n).(*ast.IdentifierNode); ok && id.Value == r.from {
+		ast.Patch(n, &ast.IdentifierNode{Value: r.to})
+	}
+}
+
+func HarnessC10Patched() {
+	src, want := vfParamStr("src"), vfParamStr("want")
+	p1, err1 := Compile(src, Env(&vfEnv{}), Patch(&vfRenamer{vfParamStr("from"), vfParamStr("to")}))
+	c := vfMemoCompile(want, 0, true)
+	vfReach("c10.patched.compiled")
+	vfAssert((err1 == nil) == (c.err == nil), "c10.patched-tree-is-what-gets-checked")
+	if err1 != nil || c.err != nil {
+		return
+	}
+	e := vfMakeEnv(src+" "+want, 2)
+	out1, e1 := Run(p1, e)
+	out2, e2 := Run(c.prog, e)
+	vfAssert((e1 == nil) == (e2 == nil), "c10.patched-tree-is-what-gets-compiled")
+	if e1 == nil && e2 == nil {
+		vfAssert(vfSame(out1, out2), "c10.patched-tree-is-what-gets-compiled")
+	}
+}
